@@ -178,6 +178,9 @@ def shape_program(item, ob):
     ob.absorb_engine(E)
 
 def run_shape(item, ob):
+    if item[0] == 'pair':
+        from props import equiv
+        equiv.MIR = MIR; return equiv.run_item(item, ob)
     shape_program(item[1], ob)
 
 def main(tier, seed, t0):
@@ -185,6 +188,9 @@ def main(tier, seed, t0):
     MIR, th = load_mir('on')
     fam = family(); evalh.parse_programs([src(p) for p in fam])
     items = [('program', (i,)) for i in range(len(fam))]
+    # differential family: a frozen function vs the unfrozen one on bodies given as source text (literals, constant folding, switch)
+    from props import equiv
+    equiv.preparse('C17'); items += equiv.items_for('C17')
     merged, per = pmap(run_shape, items, tier)
     return finish(PROP, tier, seed, merged, t0, th=th,
         kernels=['core.rs: freeze, freeze_lvalue, FreezeEnv, Expr::constant_value', 'eval.rs: evaluate (Expr::Freeze, Expr::Frozen and the arms the frozen bodies use)'],
